@@ -557,13 +557,15 @@ def make_agent_class():
             run = self.run
             F = _F
             sel, side = a["sel"], a["side"]
-            hc = a.get("hc", 0)
+            # the runner key is (selection id, handicap): the handicap always comes from the target market's definition
+            hc = (run.markets_by_id.get(market.market_id, {}).get("hc") or {}).get(str(sel), 0)
             trades = self.trades.setdefault(market.market_id, [])
             t = a.get("trade")
             if t is not None and t < 0:
                 t = len(trades) + t
             if t is not None and 0 <= t < len(trades) and trades[t].status.name == "LIVE":
                 sel = trades[t].selection_id  # an order always lives on its trade's selection
+                hc = trades[t].handicap
             if self.spec.get("discipline"):
                 for o in market.blotter._strategy_selection_orders.get((self, sel, hc), ()):
                     if o.status in BUSY:
@@ -720,6 +722,8 @@ class BacktestRun:
         self.held = {}  # market_id -> index of the update whose book flumine's Market object holds
         self.now_ms = None  # simulated time (publish time of the update being processed)
         self.markets_by_id = {m["id"]: m for m in scenario["markets"]}
+        if any(m.get("hc") for m in scenario["markets"]):
+            self.res.probes["scenario.handicap_market"] += 1
         self.pt_index = {
             m["id"]: {u["pt"]: j for j, u in enumerate(m["updates"])} for m in scenario["markets"]
         }
